@@ -233,9 +233,11 @@ class ASTString(ASTTemplate):
             return vtl_script
 
     def visit_DPRIdentifier(self, node: AST.DPRIdentifier) -> str:
-        vtl_script = f"{node.value}"
+        vtl_script = _format_reserved_word(node.value)
         if node.alias is not None:
-            vtl_script += f" as {node.alias}"
+            # the alias keeps the quotes it was written with
+            alias = node.alias if node.alias.startswith("'") else _format_reserved_word(node.alias)
+            vtl_script += f" as {alias}"
         return vtl_script
 
     def visit_DPRuleset(self, node: AST.DPRuleset) -> None:
@@ -543,7 +545,9 @@ class ASTString(ASTTemplate):
         # Build components string if present
         components_str = ""
         if node.components:
-            components_str = " components " + ", ".join(node.components)
+            components_str = " components " + ", ".join(
+                _format_reserved_word(x) for x in node.components
+            )
 
         # Output mode (only include if not default "invalid")
         output_str = ""
@@ -747,7 +751,9 @@ class ASTString(ASTTemplate):
                 return f"{dataset}[{node.op} {body}]"
 
     def visit_RenameNode(self, node: AST.RenameNode) -> str:
-        return f"{node.old_name} to {node.new_name}"
+        # old_name may be a membership (dataset#component): each side is a name of its own
+        old_name = "#".join(_format_reserved_word(part) for part in node.old_name.split("#"))
+        return f"{old_name} to {_format_reserved_word(node.new_name)}"
 
     def visit_TimeAggregation(self, node: AST.TimeAggregation) -> str:
         if node.period_to_ref is not None:
